@@ -509,5 +509,11 @@ theorem compGet_compAdd (c d : Comp) (x : List Char) (hn : NodupKeys d) :
   unfold compAdd
   rw [compGet_foldl, compTotal_eq_get d x hn]
 
+theorem absentRuleBad_static_none (E : Env) (a : Annotation) (h : a.static = none) : absentRuleBad E a = false := by
+  simp [absentRuleBad, h, parseStaticMods]
+
+theorem absentRuleBad_isotope (E : Env) (a : Annotation) (L : Option (List Mod)) :
+    absentRuleBad E { a with isotope := L } = absentRuleBad E a := rfl
+
 end AbsMass
 end Pept
